@@ -413,6 +413,9 @@ func (c *c09) genRandom(seed int64, base, n int) {
 			if r.Intn(3) == 0 {
 				stretch(r, m, 0)
 			}
+			if r.Intn(2) == 0 {
+				boundaryExact(r, m.ProtoReflect())
+			}
 			src := dumpMsg(m)
 			p := &pcfg{r: r, mutateAt: -1, spaces: r.Intn(2) == 0}
 			variant := "plain"
@@ -520,4 +523,112 @@ func c09Main(args map[string]string) {
 		c.genRandom(int64(atoi(args["seed"])), idx, n)
 	}
 	fmt.Printf("c09 cases=%d events=%d\n", c.cases, out.n)
+}
+
+// setLeaf replaces the string/bytes leaf addressed by items (as collectLeaves reports them) in a reference message
+func setLeaf(m protoreflect.Message, items []PItem, val []byte) bool {
+	cur := m
+	for i := 0; i < len(items); i++ {
+		it := items[i]
+		if it.K != "id" {
+			return false
+		}
+		fd := cur.Descriptor().Fields().ByNumber(protoreflect.FieldNumber(it.N))
+		if fd == nil {
+			return false
+		}
+		last := i == len(items)-1
+		mk := func(k protoreflect.Kind) protoreflect.Value {
+			if k == protoreflect.StringKind {
+				return protoreflect.ValueOfString(string(val))
+			}
+			return protoreflect.ValueOfBytes(append([]byte{}, val...))
+		}
+		switch {
+		case fd.IsMap():
+			if i+1 >= len(items) {
+				return false
+			}
+			i++
+			kit := items[i]
+			var key protoreflect.MapKey
+			switch fd.MapKey().Kind() {
+			case protoreflect.StringKind:
+				key = protoreflect.ValueOfString(string(kit.B)).MapKey()
+			case protoreflect.Int32Kind, protoreflect.Sint32Kind, protoreflect.Sfixed32Kind:
+				key = protoreflect.ValueOfInt32(int32(fromBE8(kit.B))).MapKey()
+			case protoreflect.Int64Kind, protoreflect.Sint64Kind, protoreflect.Sfixed64Kind:
+				key = protoreflect.ValueOfInt64(fromBE8(kit.B)).MapKey()
+			case protoreflect.Uint32Kind, protoreflect.Fixed32Kind:
+				key = protoreflect.ValueOfUint32(uint32(fromBE8(kit.B))).MapKey()
+			case protoreflect.Uint64Kind, protoreflect.Fixed64Kind:
+				key = protoreflect.ValueOfUint64(uint64(fromBE8(kit.B))).MapKey()
+			default:
+				return false
+			}
+			mp := cur.Mutable(fd).Map()
+			if i == len(items)-1 {
+				mp.Set(key, mk(fd.MapValue().Kind()))
+				return true
+			}
+			cur = mp.Get(key).Message()
+		case fd.IsList():
+			if i+1 >= len(items) || items[i+1].K != "idx" {
+				return false
+			}
+			i++
+			l := cur.Mutable(fd).List()
+			if i == len(items)-1 {
+				l.Set(items[i].N, mk(fd.Kind()))
+				return true
+			}
+			cur = l.Get(items[i].N).Message()
+		case last:
+			cur.Set(fd, mk(fd.Kind()))
+			return true
+		default:
+			cur = cur.Mutable(fd).Message()
+		}
+	}
+	return false
+}
+
+// boundaryExact resizes one nested string/bytes leaf so that the length prefix of one of its enclosing items
+// (message, map pair) is exactly 127, 128, 129 or 16383..16385
+func boundaryExact(r *rand.Rand, m protoreflect.Message) {
+	var cands []leafCand
+	collectLeaves(m, nil, nil, 0, &cands)
+	if len(cands) == 0 {
+		return
+	}
+	c := cands[r.Intn(len(cands))]
+	a := c.anc[r.Intn(len(c.anc))]
+	// (the large boundary only now and then, and never for bytes: TLC's base64 decoding of 16 KiB is slow)
+	target := []int{127, 128, 129, 128, 127, 128, 129, 128}[r.Intn(8)]
+	if c.kind == "string" && r.Intn(12) == 0 {
+		target = []int{16383, 16384, 16385}[r.Intn(3)]
+	}
+	n := c.cur + target - a
+	if n < 0 || n > 40000 {
+		return
+	}
+	// growing the leaf may lengthen its own length prefix: correct for that
+	grow := func(l int) int {
+		switch {
+		case l < 128:
+			return 1
+		case l < 16384:
+			return 2
+		}
+		return 3
+	}
+	n -= grow(n) - grow(c.cur)
+	if n < 0 {
+		return
+	}
+	val := make([]byte, n)
+	for i := range val {
+		val[i] = byte('a' + i%26)
+	}
+	setLeaf(m, c.items, val)
 }
